@@ -11,6 +11,7 @@ use std::time::Duration;
 
 pub fn swarm() -> Swarm {
     Swarm {
+        alloc_modes: true,
         stalls: true,
         stall_max_ns: 3_000_000,
         cas_weak: true,
